@@ -217,9 +217,15 @@ func (c *AbstractVariantOperations) Div(
 	// Performs operation.
 	switch value1.Type() {
 	case Integer:
+		if value2.AsInteger() == 0 {
+			return nil, errors.NewBadRequestError("", "DIV_BY_ZERO", "Division by zero")
+		}
 		result.SetAsInteger(value1.AsInteger() / value2.AsInteger())
 		return result, nil
 	case Long:
+		if value2.AsLong() == 0 {
+			return nil, errors.NewBadRequestError("", "DIV_BY_ZERO", "Division by zero")
+		}
 		result.SetAsLong(value1.AsLong() / value2.AsLong())
 		return result, nil
 	case Float:
@@ -260,9 +266,15 @@ func (c *AbstractVariantOperations) Mod(
 	// Performs operation.
 	switch value1.Type() {
 	case Integer:
+		if value2.AsInteger() == 0 {
+			return nil, errors.NewBadRequestError("", "DIV_BY_ZERO", "Division by zero")
+		}
 		result.SetAsInteger(value1.AsInteger() % value2.AsInteger())
 		return result, nil
 	case Long:
+		if value2.AsLong() == 0 {
+			return nil, errors.NewBadRequestError("", "DIV_BY_ZERO", "Division by zero")
+		}
 		result.SetAsLong(value1.AsLong() % value2.AsLong())
 		return result, nil
 	}
